@@ -305,7 +305,7 @@ def crash_info(out):
     for f, ln in frames:
         if "/go/src/" in f or "/golang.org/" in f or "/pkg/mod/" in f or "/usr/local/go/" in f or "/usr/lib/go" in f:
             continue
-        where = "%s:%s" % (f.replace("/repo/", ""), ln)
+        where = "%s:%s" % (f.replace(REPO + "/", ""), ln)
         harness = "/zzverif/" in f or "zz_verif" in f
         break
     return {"what": m.group(1), "where": where, "harness": harness}
